@@ -3,6 +3,7 @@ import Pose.Gen.Handled
 import Pose.Gen.LTypes
 import Pose.Gen.Purity
 import Pose.Gen.Creations
+import Pose.Gen.Globals
 /-!
 # C06 — batching, broadcasting and views are transparent; patching is undone
 
@@ -489,6 +490,14 @@ theorem creations_reviewed_live : ∀ r ∈ reviewedCreations, ∃ c ∈ PP.Gen.
 
 example : creationOk ("lietensor/lietensor.py", "so3Type.Jr", "torch.eye(3, device=X.device)", "implicit") = false ∧
     creationOk ("lietensor/lietensor.py", "so3Type.Jr", "torch.eye(3, device=X.device, dtype=X.dtype)", "dtype") = true := by decide
+
+/-- (static lint) **No shared module-level tensor state is written**: the anchored files have no cached (`lru_cache` / `cache`) function
+outside the reviewed list, and no in-place write, anywhere, goes through something that may alias a cached function's result or a
+module-level tensor constant — also not through a helper that returns such an alias (`eye_like(…, writable=True)` of seed C01-5:
+`_eye(n).expand(…).contiguous()` IS the cached tensor for a single item).  Mutable default arguments are all reviewed. -/
+theorem shared_state_clean :
+    (∀ c ∈ PP.Gen.cachedFunctions, c ∈ reviewedCaches) ∧ PP.Gen.sharedStateWrites = [] ∧
+    (∀ d ∈ PP.Gen.mutableDefaults, d ∈ reviewedDefaults) := by decide
 
 /-! ## `retain_ltype` / `func.jacrev`
 
